@@ -6,6 +6,9 @@
      Table   {name, v}         one of the code's eight 256-entry tables (+ "RCON": entries 1..10)
      Unit    {op, in, out, k, exc}   one direct call of a round function / padding helper
      Fresh   {ivs}             the IVs of repeated CryptAES.encrypt calls (length + distinctness)
+     New     {obj, key}        CryptAES(key) constructed; obj = 1, 2, ... numbers the live wrapper objects
+     Call    {fn, obj, data}   wrap_enc / wrap_dec on live object obj (obj = 0: one-shot object, key in the event);
+                               a trace may be a HISTORY of several New / Call..Ret on several live objects
      Call    {fn, key, iv, data}     a top-level call:  ecb_enc ecb_dec cbc_enc cbc_dec expand
                                      wrap_enc wrap_dec   (iv / data = [] where not applicable)
      Sub     {fn, key, iv, data}     the CBC call a wrapper call makes
@@ -27,14 +30,14 @@ EXTENDS AESModes, Json, IOUtils, TLCExt
 Traces == JsonDeserialize(IOEnv.TRACE_FILE)
 
 VARIABLES tid, l
-vars == << tid, l, key, w, st, rnd, ph, fn, iv, inp, outp, prev, res, wr >>
+vars == << tid, l, key, w, st, rnd, ph, fn, iv, inp, outp, prev, res, wr, objs >>
 
 Ev == Traces[tid].ev[l]
 IsEvent(a) == l <= Len(Traces[tid].ev) /\ Ev.a = a /\ l' = l + 1 /\ UNCHANGED tid
 
 AesSame  == UNCHANGED << key, w, st, rnd, ph >>
 ModeSame == UNCHANGED << fn, iv, inp, outp, prev, res >>
-AllSame  == AesSame /\ ModeSame /\ UNCHANGED wr
+AllSame  == AesSame /\ ModeSame /\ UNCHANGED << wr, objs >>
 
 (* ---- tables: exhaustive over the 256 inputs of each ---- *)
 SpecTable(name) == CASE name = "SBOX" -> SBox [] name = "INV_SBOX" -> InvSBox
@@ -74,20 +77,24 @@ TraceFresh ==
 TraceCall ==
     /\ IsEvent("Call")
     /\ IF Ev.fn \in WrapFns
-       THEN WrapCall(Ev.fn, Ev.key, Ev.data) /\ AesSame /\ ModeSame
+       THEN /\ IF Ev.obj = 0 THEN WrapCall(Ev.fn, Ev.key, Ev.data)       \* one-shot object, key in the event
+                             ELSE ObjCall(Ev.fn, Ev.obj, Ev.data)       \* the key of ITS OWN object (objs)
+            /\ AesSame /\ ModeSame
        ELSE /\ wr.ph = "none" /\ Ev.fn \in ModeFns \cup {"expand"}
-            /\ ModeCall(Ev.fn, Ev.key, Ev.iv, Ev.data) /\ UNCHANGED wr
+            /\ ModeCall(Ev.fn, Ev.key, Ev.iv, Ev.data) /\ UNCHANGED << wr, objs >>
+
+TraceNew == IsEvent("New") /\ NewObj(Ev.obj, Ev.key) /\ AesSame /\ ModeSame /\ UNCHANGED wr
 
 TraceSub == IsEvent("Sub") /\ WrapSub(Ev.fn, Ev.key, Ev.iv, Ev.data)
 
 TraceKW ==
     /\ IsEvent("KW")
     /\ ExpandWord /\ w'[Len(w')] = Ev.w
-    /\ ModeSame /\ UNCHANGED wr
+    /\ ModeSame /\ UNCHANGED << wr, objs >>
 
-TraceBlk == IsEvent("Blk") /\ FeedBlock /\ st' = Ev.in /\ UNCHANGED wr
+TraceBlk == IsEvent("Blk") /\ FeedBlock /\ st' = Ev.in /\ UNCHANGED << wr, objs >>
 
-Step(a, A) == IsEvent(a) /\ A /\ st' = Ev.s /\ ModeSame /\ UNCHANGED wr
+Step(a, A) == IsEvent(a) /\ A /\ st' = Ev.s /\ ModeSame /\ UNCHANGED << wr, objs >>
 TraceARK    == Step("ARK", E_ARK \/ D_ARK) /\ Ev.k = RoundKey(w, rnd)
 TraceSUB    == Step("SUB", E_SUB)
 TraceSHIFT  == Step("SHIFT", E_SHIFT)
@@ -96,9 +103,9 @@ TraceISHIFT == Step("ISHIFT", D_ISHIFT)
 TraceISUB   == Step("ISUB", D_ISUB)
 TraceIMIX   == Step("IMIX", D_IMIX)
 
-TraceBlkOut == IsEvent("BlkOut") /\ CollectBlock /\ st = Ev.out /\ UNCHANGED wr
+TraceBlkOut == IsEvent("BlkOut") /\ CollectBlock /\ st = Ev.out /\ UNCHANGED << wr, objs >>
 
-TraceSubRet == IsEvent("SubRet") /\ wr.ph = "sub" /\ ModeReturn /\ Ev.out = outp /\ UNCHANGED wr
+TraceSubRet == IsEvent("SubRet") /\ wr.ph = "sub" /\ ModeReturn /\ Ev.out = outp /\ UNCHANGED << wr, objs >>
 TraceSubRaise ==
     /\ IsEvent("SubRaise") /\ wr.ph = "sub" /\ res = "ValueError" /\ Ev.exc = "ValueError"
     /\ AllSame
@@ -106,7 +113,7 @@ TraceSubRaise ==
 TraceRet ==
     /\ IsEvent("Ret")
     /\ IF wr.ph = "none"
-       THEN ModeReturn /\ Ev.out = outp /\ UNCHANGED wr
+       THEN ModeReturn /\ Ev.out = outp /\ UNCHANGED << wr, objs >>
        ELSE /\ wr.ph \in {"called", "sub"} /\ (wr.ph = "sub" => res # "run")
             /\ WrapOutcomeOK("ret", Ev.out) /\ WrapEnd /\ AesSame /\ ModeSame
 
@@ -114,7 +121,7 @@ TraceRaise ==
     /\ IsEvent("Raise")
     /\ IF wr.ph = "none"
        THEN /\ res = "ValueError" /\ Ev.exc = "ValueError"
-            /\ res' = "raised" /\ AesSame /\ UNCHANGED << fn, iv, inp, outp, prev, wr >>
+            /\ res' = "raised" /\ AesSame /\ UNCHANGED << fn, iv, inp, outp, prev, wr, objs >>
        ELSE /\ wr.ph \in {"called", "sub"}
             /\ WrapOutcomeOK("raise", Ev.exc) /\ WrapEnd /\ AesSame /\ ModeSame
 
@@ -127,10 +134,10 @@ TracePerms ==
     /\ Ev.ok = (SubSeq(outp, 1, 12) = Ev.p1)
     /\ AllSame
 
-TraceInit == tid \in 1..Len(Traces) /\ l = 1 /\ ModeInit /\ wr = WrNone
+TraceInit == tid \in 1..Len(Traces) /\ l = 1 /\ ModeInit /\ wr = WrNone /\ objs = NoObjs
 
 TraceNext == \/ TraceTable \/ TraceUnit \/ TraceFresh
-             \/ TraceCall \/ TraceSub \/ TraceKW \/ TraceBlk
+             \/ TraceCall \/ TraceNew \/ TraceSub \/ TraceKW \/ TraceBlk
              \/ TraceARK \/ TraceSUB \/ TraceSHIFT \/ TraceMIX \/ TraceISHIFT \/ TraceISUB \/ TraceIMIX
              \/ TraceBlkOut \/ TraceSubRet \/ TraceSubRaise \/ TraceRet \/ TraceRaise \/ TracePerms
 
